@@ -342,6 +342,9 @@ impl Check for C12 {
     fn level(&self) -> &'static str {
         "fault_enumeration"
     }
+    fn abort_is_violation(&self) -> bool {
+        false
+    }
     fn isolated(&self) -> bool {
         true
     }
